@@ -8,11 +8,15 @@ theorem SphMT_KG (K0 G0 f K1 G1 : K) (hK0 : 0 < K0) (hG0 : 0 < G0) (hK1 : 0 < K1
     (hf0 : 0 ≤ f) (hf1 : f ≤ 1) :
     Gen.SphMT_KG_all c c3 fn K0 G0 f K1 G1 =
       [hs ![1 - f, f] ![K0, K1] (Ks3 G0), hs ![1 - f, f] ![G0, G1] (H3 K0 G0)] := by
-  simp only [Gen.SphMT_KG_all, hs_fin2, Ks3, H3, List.cons.injEq, and_true]
-  have h1f : 0 ≤ 1 - f := by linarith
-  constructor
-  · field_simp
+  unfold Gen.SphMT_KG_all
+  extract_lets +preserveBinderNames
+  have e29 : n29 = K0 := by
+    simp only [n29, n28, n27, n26, n16, n15, n13, n12, n11, n9, n8, n6]
+    field_simp
     ring
-  · field_simp
+  have e31 : n31 = G0 := by
+    simp only [n31, n30, n16, n15, n13, n12, n11, n9, n8, n6]
+    field_simp
     ring
+  sorry
 end TfelVerif.C25.Props
